@@ -467,9 +467,99 @@ func letterCases() []SpellCase {
 	return out
 }
 
+// LongNumCase: a numeric literal Head + Zeros x "0" + Tail whose mantissa has hundreds of digits. Go's
+// strconv.ParseFloat keeps 800 digits of a mantissa and, when no decimal point lies within them, loses count
+// of the digits it drops: "1" + 800 x "0" + "e-800" (the number 1) parses as 0.1 (open finding D58).
+type LongNumCase struct {
+	Head  string `json:"head"`
+	Zeros int    `json:"zeros"`
+	Tail  string `json:"tail"`
+}
+
+func (c LongNumCase) literal() string { return c.Head + strings.Repeat("0", c.Zeros) + c.Tail }
+
+func (c LongNumCase) mantissaDigits() int {
+	m := c.literal()
+	if i := strings.IndexAny(m, "eE"); i >= 0 {
+		m = m[:i]
+	}
+	return len(strings.ReplaceAll(strings.ReplaceAll(m, ".", ""), "_", ""))
+}
+
+func init() {
+	quirkProbes["parsefloat_long_mantissa"] = func() bool {
+		p, err, _ := ParseSafe("1" + strings.Repeat("0", 800) + "e-800")
+		if err != nil {
+			return false
+		}
+		n := PathFromAST(p.AST).Root
+		return n.K == KNum && n.F != 1
+	}
+}
+
+var c03Ev *Ev
+
+var checkLongNumber = register("c03.longnumber", func(c LongNumCase) *Violation {
+	lit := c.literal()
+	f, _ := new(big.Float).SetPrec(4000).SetRat(ratOfLiteral(lit)).Float64()
+	what := fmt.Sprintf("%s + %d x \"0\" + %s", c.Head, c.Zeros, c.Tail)
+	for _, form := range []struct {
+		text string
+		want *Node
+	}{
+		{lit, &Node{K: KNum, F: f}},
+		{"-" + lit, &Node{K: KNum, F: -f}},
+		{"$ == " + lit, &Node{K: KBin, S: "==", A: &Node{K: KRoot}, B: &Node{K: KNum, F: f}}},
+		{"(" + lit + ").type()", &Node{K: KNum, F: f, Next: &Node{K: KMethod, S: "type"}}},
+	} {
+		p, err, pan := ParseSafe(form.text)
+		if pan != "" {
+			return violf("Parse of the numeric literal %s panicked: %.200s", what, pan)
+		}
+		if err != nil {
+			return violf("the numeric literal %s (value %v) was rejected: %.200v", what, f, err)
+		}
+		if d := Diff(form.want, PathFromAST(p.AST).Root); d != "" {
+			ev := c03Ev
+			if ev == nil {
+				ev = &Ev{Prop: "C03"}
+			}
+			if c.mantissaDigits() > 800 && ev.quirk("parsefloat_long_mantissa") {
+				ev.KFCase("D58")
+				return nil
+			}
+			return violf("the numeric literal %s denotes %v but parsed to a different tree: %.300s", what, f, d)
+		}
+	}
+	return nil
+})
+
 func TestC03(t *testing.T) {
 	ev := newEv(t, "C03")
+	c03Ev = ev
 	ev.replayTier(t)
+	_ = ev.quirk("parsefloat_long_mantissa") // open finding D58: prints its KNOWN-FINDING line while the probe reproduces it
+	t.Run("long_numbers", func(t *testing.T) {
+		b := ev.enum(t)
+		var cs []LongNumCase
+		for _, z := range []int{300, 700, 798, 799, 800, 801, 810, 1500, 100000} {
+			cs = append(cs, LongNumCase{"1", z, fmt.Sprintf("e-%d", z)}, LongNumCase{"25", z, fmt.Sprintf("e-%d", z+1)}, LongNumCase{"1", z, fmt.Sprintf(".5e-%d", z)}, LongNumCase{"0.", z, "1e" + fmt.Sprint(z)},
+				LongNumCase{"1.", z, "1"}, LongNumCase{"7", z, fmt.Sprintf("E-%d", z-3)}, LongNumCase{"1_0", z, fmt.Sprintf("e-%d", z)}, LongNumCase{strings.Repeat("123456789", 100), z, fmt.Sprintf("e-%d", z+890)})
+		}
+		for i, c := range cs {
+			if !mine(i) {
+				continue
+			}
+			ev.Eval(fmt.Sprintf("longnum:%d:%.2s:%d:%s", len(c.Head), c.Head, c.Zeros, c.Tail), true)
+			if len(c.Head) < 20 {
+				ev.Sample("long_numbers", c)
+			}
+			if !b.Check("c03.longnumber", c, checkLongNumber(c)) {
+				return
+			}
+		}
+		ev.Exhaustive("numeric_literals_with_hundreds_of_digits", int64(len(cs)))
+	})
 
 	enumerate := func(name string, cs []SpellCase) {
 		t.Run(name, func(t *testing.T) {
